@@ -140,6 +140,245 @@ def gen_cases(chk, quick, factor):
     return cases
 
 
+
+# ---------------------------------------------------------------------------------------------
+# legacy zero / repeated nonces at the two-node level: a hand-driven legacy peer (it speaks the wire
+# protocol itself, announces nonce 0 or the same nonce on several dials) against one real NodeServer
+
+NONCE_FAMILIES = [[0, 0], [0, 0, 0], [5, 5], [5, 5, 5], [0, 0, 5], [5, 5, 3], [0, 7], [3, 3, 0, 0]]
+
+
+def gen_legacy_cases(chk, quick, factor):
+    rng = chk.rng
+    cases = []
+    fams = []
+    # exhaustive: two connections with the same nonce (0 / repeated), both name orders, every
+    # interleaving of their three dialler steps, and every way of stalling one of them for good after
+    # its Name (an unauthenticated claimant with the same name and nonce)
+    for nonces in ([0, 0], [5, 5]):
+        for ranks in ((2, 1), (1, 2)):       # (real node, legacy peer)
+            for pos in itertools.combinations(range(6), 3):
+                seq = [[f"{k}n", f"{k}c", f"{k}a"] for k in (0, 1)]
+                toks, i = ["o0", "o1"], [0, 0]
+                for slot in range(6):
+                    k = 0 if slot in pos else 1
+                    toks.append(seq[k][i[k]])
+                    i[k] += 1
+                cases.append({"kind": "legacy/phases2", "ranks": ranks, "nonces": nonces, "tokens": toks + ["U"], "forever": []})
+            for z in (0, 1):
+                o = 1 - z
+                for cut in range(4):     # where the claimant's Name falls among the other's steps
+                    steps = [f"{o}n", f"{o}c", f"{o}a"]
+                    toks = ["o0", "o1", f"Z{z}"] + steps[:cut] + [f"{z}n"] + steps[cut:] + ["U"]
+                    cases.append({"kind": "legacy/claimant", "ranks": ranks, "nonces": nonces, "tokens": toks, "forever": [z]})
+    n = (80 if quick else 2000) * factor
+    for _ in range(n):
+        nonces = list(rng.choice(NONCE_FAMILIES))
+        rng.shuffle(nonces)
+        ranks = rng.choice([(2, 1), (1, 2)])
+        forever = [k for k in range(len(nonces)) if rng.random() < 0.25]
+        if len(forever) == len(nonces):
+            forever = forever[1:]
+        seqs = []
+        for k in range(len(nonces)):
+            full = [f"o{k}", f"{k}n", f"{k}c", f"{k}a"]
+            if k in forever:
+                seqs.append(full[:rng.choice([1, 2, 2])])
+            else:
+                seqs.append(full[:rng.choice([0, 1, 2, 3, 4, 4])] or [f"o{k}"])
+        toks = [f"Z{k}" for k in forever] + merge(rng, seqs)
+        for k in range(len(nonces)):
+            if f"o{k}" not in toks:
+                toks.append(f"o{k}")
+        cases.append({"kind": "legacy/frames", "ranks": ranks, "nonces": nonces, "tokens": toks + ["U"], "forever": forever})
+    return cases
+
+
+def legacy_line(c):
+    return (f"elect names={c['ranks'][0]} legacy={c['ranks'][1]} conns="
+            + ",".join(f"L>0:{n}" for n in c["nonces"]) + " | " + " ".join(c["tokens"]))
+
+
+def legacy_expr(c, o):
+    """the model's choice among the connections that are driven to completion (accepting endpoint:
+    lowest nonce, then lowest session id), or None if none completes"""
+    sid = {conn: s for (node, kind, s, srv, conn) in o["events"] if kind == 0}
+    cand = [k for k in range(len(c["nonces"])) if k not in c["forever"] and k in sid]
+    if not cand:
+        return None, sid, cand
+    cs = "[" + "; ".join(
+        f"mkCand {sid[k]} true ({'Some ' + str(c['nonces'][k]) if c['nonces'][k] else 'None'})" for k in cand) + "]"
+    return f"elect {c['ranks'][0]} {c['ranks'][1]} {cs}", sid, cand
+
+
+def legacy_oracle(c, o, pred, sid, cand):
+    why = []
+    legs = {l[1]: {"status": l[2], "acked": l[3] == "true", "eof": l[4] == "true"} for l in o["legs"]}
+    final = o["snaps"][-1]
+    sess = {n[1]: n[2] for n in final[1]}.get(0, [])
+    mine = [s for s in sess if s[4] == c["ranks"][1]]
+    ends = {e[1]: (e[2] == "true", e[3] == "true") for e in final[2]}
+    authenticated = [k for k in legs if legs[k]["acked"]]
+    w = None
+    if pred is not None:
+        w_sid = pred[0] if len(pred) == 1 else None
+        w = next((k for k in cand if sid[k] == w_sid), None)
+        if w is None:
+            why.append(f"model: elects {pred} among sessions {[sid[k] for k in cand]}")
+    if authenticated and len(mine) != 1:
+        why.append(f"connections {authenticated} authenticated, yet the node lists {len(mine)} sessions for the peer "
+                   f"(an authenticated connection was closed while no other authenticated connection survives)")
+    if cand and len(mine) == 1 and w is not None and mine[0][1] != w:
+        why.append(f"the node keeps connection {mine[0][1]}, the model elects {w}")
+    if len(mine) == 1:
+        s = mine[0][2]
+        kinds = [kind for (node, kind, s2, srv, conn) in o["events"] if s2 == s]
+        if kinds.count(2) != 1 or 3 in kinds:
+            why.append(f"the surviving session {s} has events {kinds}: not exactly one ready session for the peer")
+    for k in cand:
+        d, a = ends[k]
+        if w is not None and k != w and (d or a):
+            why.append(f"losing connection {k} is still open (legacy end open={d}, acceptor end open={a})")
+        if k == w and not (d and a):
+            why.append(f"the elected connection {k} is closed")
+    readies = [s for (node, kind, s, srv, conn) in o["events"] if kind == 2]
+    if len(mine) == 1 and readies and readies[-1] != mine[0][2]:
+        why.append("the last ready event is not the survivor's")
+    return why
+
+
+# ---------------------------------------------------------------------------------------------
+# handler level: the life cycle of sessions played against the real NodeServerState / handlers
+# (eng_elect `table` lines), with legacy zero / repeated nonces and claimants that never authenticate.
+# The node server side is the REAL code (UpdateSession, CheckSession, ConnectionAuthenticated handler,
+# supervision removal); the sessions' reactions to its answers are replayed here in Python exactly as
+# node_session.rs does (trusted): status NotOk -> the session closes, Alive -> it waits for good,
+# after authenticating it asks CheckSession again and stops itself unless the answer is
+# NoOtherConnection / ThisConnectionContinues; sessions stopped by the handler are removed.
+
+def gen_lifecycle_cases(chk, quick, factor):
+    rng = chk.rng
+    cases = []
+    n = (150 if quick else 3000) * factor
+    for i in range(n):
+        this, peer = rng.choice([(2, 1), (1, 2)])
+        fam = list(rng.choice(NONCE_FAMILIES))
+        rng.shuffle(fam)
+        conns = []
+        for k, nonce in enumerate(fam):
+            conns.append({"id": k + 1, "srv": 1, "nonce": nonce,
+                          "claimant": rng.random() < 0.3})      # registers its name and then never authenticates
+        if rng.random() < 0.3:      # plus an outgoing connection of this node (fresh non-zero nonce)
+            conns.append({"id": len(conns) + 1, "srv": 0, "nonce": 100 + len(conns), "claimant": False})
+        if all(c["claimant"] for c in conns):
+            conns[0]["claimant"] = False
+        sched = merge(rng, [[(c["id"], "name")] + ([] if c["claimant"] else [(c["id"], "auth")]) for c in conns])
+        cases.append({"this": this, "peer": peer, "conns": {c["id"]: c for c in conns}, "sched": sched,
+                      "ops": [], "state": {c["id"]: "new" for c in conns}, "why": [], "authed": [], "log": []})
+    # the two fixed shapes of the C18-3 family
+    for this, peer in ((2, 1), (1, 2)):
+        for nonce in (0, 5):
+            mk = lambda cl: {1: {"id": 1, "srv": 1, "nonce": nonce, "claimant": False},
+                             2: {"id": 2, "srv": 1, "nonce": nonce, "claimant": cl}}
+            cases.append({"this": this, "peer": peer, "conns": mk(True), "sched": [(1, "name"), (2, "name"), (1, "auth")],
+                          "ops": [], "state": {1: "new", 2: "new"}, "why": [], "authed": [], "log": []})
+            cases.append({"this": this, "peer": peer, "conns": mk(False),
+                          "sched": [(2, "name"), (1, "name"), (2, "auth"), (1, "auth")],
+                          "ops": [], "state": {1: "new", 2: "new"}, "why": [], "authed": [], "log": []})
+    return cases
+
+
+def lifecycle_stage(chk, build, distinct, quick, factor):
+    cases = gen_lifecycle_cases(chk, quick, factor)
+    rounds = max(len(c["sched"]) for c in cases)
+
+    def line(c, extra):
+        ops = c["ops"] + extra
+        return f"table {c['this']} " + " ; ".join(" ".join(str(x) for x in op) for op in ops)
+
+    for r in range(rounds + 1):
+        lines, metas = [], []
+        for c in cases:
+            ids = sorted(c["conns"])
+            new = []
+            step = None
+            if r < len(c["sched"]):
+                cid, what = c["sched"][r]
+                k = c["conns"][cid]
+                if what == "name" and c["state"][cid] == "new":
+                    new = [("open", cid, k["srv"]), ("reg", cid, c["peer"], k["nonce"])]
+                    if k["srv"]:
+                        new.append(("cs", c["peer"], k["nonce"]))
+                    step = (cid, "name")
+                elif what == "auth" and c["state"][cid] == "named":
+                    new = [("commith", cid), ("cs", c["peer"], k["nonce"])]
+                    step = (cid, "auth")
+            q = [("el", i) for i in ids]
+            lines.append(line(c, new + q))
+            metas.append((new, step, len(c["ops"]), ids))
+        try:
+            outs = run_harness(build, "eng_elect", lines, shards=4)
+        except RuntimeError as e:
+            print(f"[{chk.prop}] handler engine did not complete: {str(e)[-800:]}")
+            return None
+        for c, out, (new, step, base, ids) in zip(cases, outs, metas):
+            t = parse_term(out)
+            res = t[base:base + len(new)]
+            el = {i: (x == ("OBool", "true")) for i, x in zip(ids, t[base + len(new):])}
+            c["ops"] += new
+            if step is None:
+                c["last_el"] = el
+                continue
+            cid, what = step
+            k = c["conns"][cid]
+            c["log"].append({"step": step, "answers": [show_term(x) for x in res], "elected": sorted(i for i in el if el[i])})
+            if what == "name":
+                code = res[-1][1] if k["srv"] else 0
+                if code == 2:
+                    c["state"][cid] = "closed"
+                    c["ops"].append(("rm", cid))
+                elif code == 3:
+                    c["state"][cid] = "waiting"         # Alive: the handshake never completes
+                else:
+                    c["state"][cid] = "named"
+            else:
+                commit, check = res
+                stopped = set(commit[2]) if isinstance(commit, tuple) and commit[0] == "OCommitH" else set()
+                c["authed"].append(cid)
+                c["state"][cid] = "ready"
+                closed_now = set(stopped)
+                if cid not in stopped and check[1] not in (0, 1):
+                    closed_now.add(cid)                     # session_election_lost
+                survivors = [j for j in c["authed"] if c["state"][j] == "ready" and j not in closed_now and el.get(j)]
+                for j in sorted(closed_now):
+                    if j in c["authed"] and not survivors:
+                        c["why"].append(f"after connection {cid} authenticated, the authenticated connection {j} is closed "
+                                        f"({'stopped by the handler' if j in stopped else 'CheckSession answered %s' % check[1]}) "
+                                        f"while no other authenticated connection to the peer survives")
+                    if c["state"].get(j) not in ("closed",):
+                        c["state"][j] = "closed"
+                        c["ops"].append(("rm", j))
+            c["last_el"] = el
+    nviol = 0
+    for c in cases:
+        chk.coverage["evaluations"] += 1
+        chk.count("lifecycle.connections=%d" % len(c["conns"]))
+        chk.count("lifecycle.claimants=%d" % sum(1 for k in c["conns"].values() if k["claimant"]))
+        distinct.add(line(c, []))
+        live = [j for j in c["authed"] if c["state"][j] == "ready"]
+        elected = [j for j in live if c.get("last_el", {}).get(j)]
+        if c["authed"] and len(elected) != 1 and not c["why"]:
+            c["why"].append(f"connections {c['authed']} authenticated; at the end {len(elected)} elected open sessions {elected} "
+                            f"(open authenticated: {live})")
+        if c["why"]:
+            nviol += 1
+            desc = json.dumps({"kind": "handler-lifecycle", "harness_line": line(c, []), "why": c["why"],
+                               "connections": list(c["conns"].values()), "schedule": c["sched"], "steps": c["log"]}, indent=1)
+            chk.violation("session life cycle against the real node server table: " + c["why"][0][:300],
+                          "C18 life-cycle oracle rejects the real NodeServerState / ConnectionAuthenticated handler\n" + desc)
+    return len(cases)
+
+
 def pairs_of(conns):
     out = {}
     for k, (x, y) in enumerate(conns):
@@ -151,12 +390,37 @@ def stage(chk, build, quick, factor, distinct):
     """Runs the two-node stage; records violations in chk. Returns the number of cases or None on
     infrastructure failure (message printed)."""
     cases = gen_cases(chk, quick, factor)
+    lcases = gen_legacy_cases(chk, quick, factor)
     try:
-        outs = run_harness(build, "eng_elect_net", [line_of(c["names"], c["conns"], c["tokens"]) for c in cases],
-                           shards=4, timeout=2400)
+        allouts = run_harness(build, "eng_elect_net",
+                              [line_of(c["names"], c["conns"], c["tokens"]) for c in cases] + [legacy_line(c) for c in lcases],
+                              shards=4, timeout=2400)
     except RuntimeError as e:
         print(f"[{chk.prop}] two-node election engine did not complete: {str(e)[-1200:]}")
         return None
+    outs, louts = allouts[:len(cases)], allouts[len(cases):]
+    # ---- legacy zero / repeated nonce family
+    lobs, lexprs, lmeta = [], [], []
+    for c, out in zip(lcases, louts):
+        t = parse_term(out)
+        o = {"events": [tuple(e[1:]) for e in t[2]], "snaps": t[3], "legs": t[4]}
+        lobs.append(o)
+        e, sid, cand = legacy_expr(c, o)
+        lmeta.append((e is not None, sid, cand))
+        if e is not None:
+            lexprs.append(e)
+    lpreds = iter(coq_eval("C18leg%d" % os.getpid(), IMPORTS, lexprs))
+    for c, o, out, (has, sid, cand) in zip(lcases, lobs, louts, lmeta):
+        pred = parse_term(next(lpreds)) if has else None
+        why = legacy_oracle(c, o, pred, sid, cand)
+        chk.coverage["evaluations"] += 1
+        chk.count("net." + c["kind"])
+        distinct.add(legacy_line(c))
+        if why:
+            desc = json.dumps({"kind": "two-node-legacy", "scenario_kind": c["kind"], "harness_line": legacy_line(c),
+                               "why": why, "nonces": c["nonces"], "stalled_for_good": c["forever"], "impl": out[:4000]}, indent=1)
+            chk.violation("real NodeServer vs. legacy peer with zero/repeated nonces: " + why[0][:300],
+                          "C18 two-node oracle (legacy nonces) rejects what the real NodeServer did\n" + desc)
     obs = []
     exprs = []
     plan = []   # (case index, snapshot index, pair, candidate conn indexes)
@@ -256,10 +520,16 @@ def stage(chk, build, quick, factor, distinct):
         if len(chk.coverage["samples"]) < 8 and c["kind"].startswith("stall") and ci % 37 == 0:
             chk.coverage["samples"].append({"harness_line": line_of(c["names"], c["conns"], c["tokens"]),
                                             "impl": outs[ci][:1500]})
-    return len(cases)
+    return len(cases) + len(lcases)
 
 
 TRUSTED_NET = [
+    "handler-level life cycles (lib/c18_net.py lifecycle_stage): the node-server side is the real code (eng_elect table lines, replayed "
+    "prefix by prefix); the sessions' reactions to its answers (close on NotOk, wait on Alive, post-authentication CheckSession, removal "
+    "of stopped sessions) are replayed in Python after node_session.rs; the oracle 'an authenticated connection is never closed while no "
+    "other authenticated connection survives / exactly one elected session once one authenticated' is evaluated in Python",
+    "two-node legacy family: the legacy peer is hand-driven by the harness through the wire types and challenge_digest re-exported by the "
+    "cfg hook node::verif_auth; the survivor is predicted by `elect` of Cluster/Elect.v on the acceptor's session ids and the announced nonces",
     "two-node stage: eng_elect_net runs 2-3 real NodeServers in ONE process (paused-clock current_thread runtime) over in-memory "
     "duplex pipes whose frames are released one by one by the driver; the connection nonces are read from the Name frames on the wire "
     "by a hand-written protobuf field reader; the survivor is predicted by elected_a/elected_b of Cluster/Elect.v (vm_compute); "
